@@ -13,7 +13,8 @@ RULE = ("(a) dadd +-N{s,m,h} on date-times (date part as ymd, ymcw, ywd) over st
         "difference of reference epochs for near pairs (+-{0,1,59,60,3599,3600,86399,86400,86401}) "
         "and far random pairs. (c) %s output and @N / -i %s input over the whole range incl. "
         "negative epochs. (d) D T24:00:00 has the epoch of D+1 T00:00:00. Non-trivial: the day "
-        "carry is non-zero, or |carry| > 7 days, or the pair straddles midnight / 1970")
+        "carry is non-zero, or |carry| > 7 days, or the pair straddles midnight / 1970"
+        " Also: the same instants given as seconds since the epoch (-i %s on stdin, @N as argument) in (a), and the reference spelled @N in (b).")
 ASSUMPTIONS = ["reference epoch = (n - 134775) * 86400 + second of day (vf/refcal.py)",
                "|N*unit| <= 2^31-1 seconds, the largest the duration parser accepts"]
 
